@@ -115,7 +115,13 @@ def build_model():
         return exe
 
 # ------------------------------------------------------------------ running line-oriented workers
-def _run_worker(exe, lines, timeout):
+def _limit_mem(mb):
+    def f():
+        import resource
+        resource.setrlimit(resource.RLIMIT_AS, (mb << 20, mb << 20))
+    return f
+
+def _run_worker(exe, lines, timeout, mem_mb=None):
     """Feed `lines` (each '<id>\\t...') to a worker; restart after an abort, attributing it to the
     case that had been announced with BEGIN.  Returns {id: result-string}."""
     results = {}
@@ -124,7 +130,8 @@ def _run_worker(exe, lines, timeout):
         data = "\n".join(pending) + "\n"
         try:
             p = subprocess.run([exe], input=data, stdout=subprocess.PIPE, stderr=subprocess.PIPE,
-                               text=True, errors="replace", timeout=timeout)
+                               text=True, errors="replace", timeout=timeout,
+                               preexec_fn=_limit_mem(mem_mb) if mem_mb else None)
             out, rc, timed_out = p.stdout, p.returncode, False
         except subprocess.TimeoutExpired as e:
             out = (e.stdout or b"")
@@ -157,7 +164,7 @@ def _run_worker(exe, lines, timeout):
         pending = pending[k + 1:]
     return results
 
-def run_cases(exe, cases, timeout=600, shards=None):
+def run_cases(exe, cases, timeout=600, shards=None, mem_mb=None):
     """cases: list of payload strings '<mode>\\t<fields...>'.  Returns list of result strings."""
     n = len(cases)
     if n == 0:
@@ -167,7 +174,7 @@ def run_cases(exe, cases, timeout=600, shards=None):
     chunks = [lines[k::shards] for k in range(shards)]
     res = {}
     with ThreadPoolExecutor(max_workers=shards) as ex:
-        for r in ex.map(lambda ch: _run_worker(exe, ch, timeout), chunks):
+        for r in ex.map(lambda ch: _run_worker(exe, ch, timeout, mem_mb), chunks):
             res.update(r)
     return [res.get(str(i), "MISSING") for i in range(n)]
 
